@@ -68,6 +68,14 @@ RULE = ('prog cases: random template trees over atoms (Constant/Table/Point/Func
         'get_measurement_windows(drop=True) on every program / loop; loops extended by append_child after a query; inner '
         'nodes with windows and nothing to play; cleanup() of programs with volatile counts; negative split index; '
         'AtomicMultiChannelPT built through with_parallel_atomic.  '
+        'Round 6 render cases: the program of a template handed to plotting.render(prog, sample_rate, '
+        'render_measurements=True, time_slice) with the default slice and explicit slices chosen relative to the reported '
+        'windows (the whole program, exactly one window, ending where a window begins, beginning where a window ends, '
+        'a point, too short for two samples, reversed, negative start); answer = windows | ValueError(time_slice) | '
+        'PlottingNotPossibleException, compared in Coq with Render.render_meas of the model program and with the '
+        'specification (all denoted windows resp. those with begin < end and begin + length > start); deterministic '
+        'family: zero-length windows at t = 0 / inside / t = duration and windows touching a slice boundary on an atom, '
+        'first / last part of a sequence, repeated body, reversed part, for-loop body, collapsed repetition x 12 slices.  '
         'Thorough tier adds exhaustive small scopes (template shapes, loop trees, rewrites, aliasing contexts, '
         'rebinding expressions x ranges, renamings of two names x top-level mappings).  Non-trivial = '
         'at least two reported windows under at least two nested composite nodes / two nested loops, traces of >= 6 '
@@ -1388,7 +1396,14 @@ MANIFEST = {
                   'that agree on the declared parameters (= parameter_names, compared per case) give the same plays / '
                   'duration / windows / program.  (8) an atomic template (mapping / reversal / pass-through wrappers '
                   'included) contributes the same windows as a part of an atomic composite (get_measurement_windows) and '
-                  'as a node of its own (_internal_create_program): the two code paths agree.  All '
+                  'as a node of its own (_internal_create_program): the two code paths agree.  (9, round 6) the '
+                  'measurement part of plotting.render (Render.render_meas: slice validation, strict overlap filter, '
+                  'sample-count refusal) reports for every built program exactly the denoted windows (default slice; '
+                  'total form: nothing refused when duration x rate >= 1) resp. exactly the denoted windows overlapping '
+                  'an explicit slice; a covering slice [0, e] reports all windows of positive length (zero-length '
+                  'windows at t = 0 / t = duration only with the default slice: witness).  (10, round 6) cleanup() '
+                  'of ANY loop whose inner nodes carry no waveform - dead nodes with windows anywhere - keeps the '
+                  'duration and reports exactly the windows of the tree without its dead non-root nodes.  All '
                   'models are tied to /repo by exact correspondence checks (programs, hand-built loops, step-by-step '
                   'builder traces, constructor merges, rewrites, volatile updates).  The theorems are about the Coq '
                   'models; what is established of /repo itself is the agreement of model, specification and '
@@ -1400,10 +1415,11 @@ MANIFEST = {
                   'the volatile guard (guard on the model programs + nothing reversed + counts >= 1 => windows = '
                   'denote under the new counts: CVolG cases), termination of flatten_and_balance (fuel); windows are a '
                   'multiset everywhere (coinciding triples kept) and nothing leaks between calls / occurrences of one object: '
-                  'theorems of the model, tied to the code by the round-4 families; the second '
-                  'observation point plotting.render(...)[2] is tested only (must equal get_measurement_windows() on '
-                  'every program); cleanup() of loops with dead nodes is tested only (spec: windows of the tree without '
-                  'its dead non-root nodes).  Not covered: times off the dyadic grid (decimal durations / begins: the '
+                  'theorems of the model, tied to the code by the round-4 families; of the second '
+                  'observation point plotting.render(...)[2] the measurement list is modelled (round 6), the waveform / '
+                  'sampling part is not (cases whose program cannot be turned into one waveform, or whose slice ends '
+                  'behind the waveform, are skipped and counted), the order of the returned list is checked in Python '
+                  'only (sorted by begin); plotting.plot is not covered.  Not covered: times off the dyadic grid (decimal durations / begins: the '
                   'theorems are over Q, the generators are dyadic); '
                   'which missing parameter is reported; check / rejection kinds under absent parameters; the mirror axis of '
                   'a reversed atomic composite whose first part does not play (AtomicMultiChannelPT.duration, C04); '
